@@ -124,6 +124,16 @@ class Prop(PropBase):
                                 if (W2, H2) != (W, H):
                                     cs.append(Case(line(W, H, wr + ["rz %d %d" % (W2, H2), "cdump", "rz %d %d" % (W, H), "cdump"]),
                                                    sweep="single-access-path-then-resize", tag="access-path"))
+        # ---- 3c. a column handle (`canvas[x]`) taken before a resize and assigned through after it, for every old and new size
+        for W in range(1, 5):
+            for H in range(1, 4):
+                for W2 in range(0, 6):
+                    for H2 in range(0, 5):
+                        for x in range(W):
+                            y = (x + W2) % max(1, H2)
+                            cs.append(Case(line(W, H, fill(W, H, 1) + ["hz %d %d %d %d %s" % (x, y, W2, H2, element(x, y, 4)), "cdump",
+                                                                     "hz %d %d %d %d %s" % (min(x, max(0, W2 - 1)), 0, W, H, element(x, y, 5)), "cdump"]),
+                                           sweep="column-handle-across-resize", tag="handle"))
         # ---- 4. random resize chains with edits in between
         n_chain = 1500 if tier == "quick" else 20000
         for _ in range(n_chain):
